@@ -153,6 +153,74 @@ func (p *pkgInfo) emitConsts(w *bytes.Buffer) {
 	}
 }
 
+// package-level `var x = []T{consts...}` / `map[K]bool{k: true, ...}` tables
+func (p *pkgInfo) emitVarTables(w *bytes.Buffer) {
+	type kv struct{ name, text string }
+	var out []kv
+	for _, f := range p.files {
+		for _, d := range f.Decls {
+			gd, ok := d.(*ast.GenDecl)
+			if !ok || gd.Tok != token.VAR {
+				continue
+			}
+			for _, sp := range gd.Specs {
+				vs := sp.(*ast.ValueSpec)
+				if len(vs.Names) != 1 || len(vs.Values) != 1 {
+					continue
+				}
+				cl, ok := vs.Values[0].(*ast.CompositeLit)
+				if !ok || len(cl.Elts) == 0 {
+					continue
+				}
+				var vals []string
+				ty := ""
+				good := true
+				isMap := false
+				for _, e := range cl.Elts {
+					if kve, ok := e.(*ast.KeyValueExpr); ok {
+						// map[K]bool{k: true}: keep the keys whose value is the constant true
+						isMap = true
+						k, kt, ok1 := p.constOf(kve.Key)
+						v, _, ok2 := p.constOf(kve.Value)
+						if !ok1 || !ok2 || (v != "true" && v != "false") {
+							good = false
+							break
+						}
+						if v == "true" {
+							vals = append(vals, k)
+							ty = kt
+						}
+						continue
+					}
+					v, t, ok := p.constOf(e)
+					if !ok {
+						good = false
+						break
+					}
+					vals = append(vals, v)
+					ty = t
+				}
+				if !good || ty == "" {
+					continue
+				}
+				if isMap {
+					sort.Strings(vals)
+				}
+				kind := "slice/array literal"
+				if isMap {
+					kind = "map literal: keys mapped to true, sorted"
+				}
+				out = append(out, kv{vs.Names[0].Name, fmt.Sprintf("/-- Go package-level `var %s` (%s) -/\ndef %s : List %s := [%s]\n",
+					vs.Names[0].Name, kind, leanName(vs.Names[0].Name), ty, strings.Join(vals, ", "))})
+			}
+		}
+	}
+	sort.Slice(out, func(i, j int) bool { return out[i].name < out[j].name })
+	for _, c := range out {
+		w.WriteString(c.text)
+	}
+}
+
 // enum helpers -----------------------------------------------------------
 
 func isIntNamed(t types.Type) (string, bool) {
@@ -355,6 +423,8 @@ func genPkg(rel, out string) (res struct {
 	fmt.Fprintf(&w, "/- GENERATED by go/cmd/extract from /repo/%s on every run — do not edit. -/\nimport Oryx.Base.Bytes\nnamespace Oryx.Gen.%s\nopen Oryx\n\n", rel, title(rel))
 	p.emitConsts(&w)
 	w.WriteString("\n")
+	p.emitVarTables(&w)
+	w.WriteString("\n")
 	p.emitHelpers(&w)
 	if fn, ok := facts[rel]; ok {
 		w.WriteString("\n")
@@ -385,6 +455,12 @@ func main() {
 	if *out == "" {
 		fmt.Fprintln(os.Stderr, "usage: extract -repo /repo -out lean/Oryx/Gen")
 		os.Exit(2)
+	}
+	if abs, err := filepath.Abs(*out); err == nil {
+		*out = abs
+	}
+	if abs, err := filepath.Abs(repo); err == nil {
+		repo = abs
 	}
 	os.Chdir(repo)
 	os.MkdirAll(*out, 0o755)
